@@ -999,11 +999,12 @@ void make_pieces(Session& s, std::vector<std::size_t> cuts, Rng& r)
 
 std::string fresh_name(World& w, int len)
 {
-	for (;;)
+	// never hand out a name twice: the caller (re)defines what it resolves to
+	for (int tries = 0;; ++tries)
 	{
 		std::string n = gen_name(w.rng, len);
 		if (!w.net.names.count(n)) return n;
-		if (len < 3) return n; // tiny name space: reuse is fine, the caller overwrites the entry
+		if (tries % 50 == 49) ++len; // tiny name space exhausted
 	}
 }
 
